@@ -332,7 +332,9 @@ def is_perm(l, n):
 # ---------------------------------------------------------------------------
 # rendering to Coq
 # ---------------------------------------------------------------------------
-CODE = {"ok": 0, "AssertionError": 1, "RUNAWAY": 2}
+CODE = {"ok": 0, "AssertionError": 1, "RUNAWAY": 2,
+        "GroupError": 3}     # only in process-group histories (harness/pgroup.py): torch's DistributedSampler constructor
+                             # raises without a group to take the default rank / world size from
 
 
 def nats(l):
